@@ -165,6 +165,9 @@ def apply_contract(ex, callee, bound, st, node):
     """Modular call: assert the callee's precondition, havoc its frame, assume its postcondition."""
     from .contract import Kit, Result
     K = Kit(st, ex)
+    ga = getattr(ex.c, 'ghost_args', {}).get(callee.target)
+    if ga is not None:
+        bound.update(ga(ex, st, bound))        # ghost arguments of the callee, supplied by the caller's contract
     pre = ex.with_sink(st, node, lambda: callee.requires(K, bound))
     short = callee.target.split(':')[1]
     ex.oblige(st, pre, 'call:%s/pre' % short, node)
@@ -191,9 +194,13 @@ def apply_contract(ex, callee, bound, st, node):
             raise SymErr('modifies of an object record')
         st.write_cell(ref, callee.havoc(K, bound, ref, cur))
     val = callee.result(K, bound)
+    if getattr(callee, 'abstract_result', False):
+        ex.abstract_calls = True       # the callee's result is only constrained by its postcondition
     res = Result('return', val)
+    only = getattr(ex.c, 'assume_clauses', {}).get(callee.target)
     for nm, cl in callee.ensures(K, bound, old, res):
-        st.assume(cl)
+        if only is None or nm in only:
+            st.assume(cl)
     return res.value
 
 
